@@ -2,7 +2,7 @@
 use crate::report::{Acc, Describe};
 use crate::util::{guarded, panic_class};
 use crate::{Ctx, Prop};
-use falcon::analysis::fixed_point::{fixed_point_backward_options, fixed_point_forward_options, FixedPointAnalysis};
+use falcon::analysis::fixed_point::{fixed_point_backward, fixed_point_backward_options, fixed_point_forward, fixed_point_forward_options, FixedPointAnalysis};
 use falcon::il::{self, FunctionLocation as FL};
 use falcon::Error;
 use serde_json::{json, Value};
@@ -371,13 +371,15 @@ fn check(acc: &mut Acc, spec: &Spec, thorough: bool, only: Option<(usize, usize)
                 }
             }
             let kname = format!("{:?}", kind);
-            let mut variants: Vec<(&str, bool, Option<usize>)> = vec![("forward", false, None), ("forward-force", true, None)];
+            // "forward-wrapper"/"backward-wrapper" are the convenience entry points the in-tree analyses use: they must
+            // behave like the explicit calls without `force`
+            let mut variants: Vec<(&str, bool, Option<usize>)> = vec![("forward", false, None), ("forward-wrapper", false, None), ("forward-force", true, None)];
             for b in [0usize, 1, 2, 5] {
                 variants.push(("forward-budget", false, Some(b)));
             }
             for (vname, force, budget) in variants {
                 acc.count("transitions", 1);
-                let r = guarded(|| fixed_point_forward_options(A { kind: *kind, rot }, &f, force, budget.unwrap_or(250000)));
+                let r = guarded(|| if vname == "forward-wrapper" { fixed_point_forward(A { kind: *kind, rot }, &f) } else { fixed_point_forward_options(A { kind: *kind, rot }, &f, force, budget.unwrap_or(250000)) });
                 let got: Result<BTreeMap<FL, S>, String> = match r {
                     Err(pn) => {
                         acc.violation(format!("C09|{}|{}|panic:{}", vname, kname, panic_class(&pn)), format!("panicked: {}", pn), case());
@@ -392,9 +394,9 @@ fn check(acc: &mut Acc, spec: &Spec, thorough: bool, only: Option<(usize, usize)
                 };
                 judge(acc, &got, &f_or, &fnodes, &bwd, *kind, rot, vname, &kname, force, budget, &case);
             }
-            for (vname, force) in [("backward", false), ("backward-force", true)] {
+            for (vname, force) in [("backward", false), ("backward-wrapper", false), ("backward-force", true)] {
                 acc.count("transitions", 1);
-                let r = guarded(|| fixed_point_backward_options(A { kind: *kind, rot }, &f, force));
+                let r = guarded(|| if vname == "backward-wrapper" { fixed_point_backward(A { kind: *kind, rot }, &f) } else { fixed_point_backward_options(A { kind: *kind, rot }, &f, force) });
                 let got: Result<BTreeMap<FL, S>, String> = match r {
                     Err(pn) => {
                         acc.violation(format!("C09|{}|{}|panic:{}", vname, kname, panic_class(&pn)), format!("panicked: {}", pn), case());
